@@ -82,6 +82,7 @@ def run_shape(prog, shape):
         if r.variant != "Ok":
             raise Inconclusive("building the log failed: %r" % (r,))
         before = V.build(eng, ctx, reduce_real(eng, ctx, log))
+        files_before = sorted(VF.vfs_of(ctx).files)
         d = eng.program.enum_variant("BackendEventLog", "FileSystem")
         blog = Cell(EnumV("BackendEventLog", "FileSystem", d, [Cell(log.v)]))
         aid = Agg("struct", "AccountId", [Cell(Agg("array", None, [Cell(Int(0, 8)) for _ in range(20)]))])
@@ -112,7 +113,7 @@ def run_shape(prog, shape):
                     conds[what] = ("gap", u.what)
             conds["live"] = len(c0.entries)
         return {"result": res, "conds": conds, "mem": mem_leaves, "disk": disk_leaves,
-                "files": sorted(VF.vfs_of(ctx).files)}
+                "files": sorted(VF.vfs_of(ctx).files), "files_before": files_before}
 
     def check(res, cond, what, key):
         out["obligations"] += 1
@@ -168,6 +169,8 @@ def run_shape(prog, shape):
         check(res, z3.BoolVal(len(v["disk"]) == 1 + live),
               "the compacted log holds %d records for %d live secrets (expected %d)" % (len(v["disk"]), live, 1 + live), "record count")
         check(res, z3.BoolVal(TEMP not in v["files"]), "the temporary event log is left behind", "temp file left")
+        extra = [f for f in v["files"] if f not in v["files_before"]]
+        check(res, z3.BoolVal(not extra), "compaction leaves a stray file next to the log: %s" % ", ".join(extra), "stray file left")
         if not out["samples"]:
             out["samples"].append({"shape": name, "records_after": len(v["disk"]), "live_secrets": live})
 
